@@ -105,10 +105,17 @@ def replay_kani(prop, result, tier, scratch=None, watchdog_s=20):
         #  cargo test in lifted replays, see replay_lifted)
         for prof, extra in profiles:
             for kind, desc, fn, _ in cand:
-                build = subprocess.run(
-                    ["cargo", "kani", "playback", "-Z", "concrete-playback", "--no-default-features", "--lib",
-                     "--only-codegen"] + extra,
-                    cwd=rs, env=env, capture_output=True, text=True, timeout=900)
+                build = None
+                for _try in range(2):   # (a loaded machine: the build of the playback test is retried once)
+                    try:
+                        build = subprocess.run(
+                            ["cargo", "kani", "playback", "-Z", "concrete-playback", "--no-default-features", "--lib",
+                             "--only-codegen"] + extra,
+                            cwd=rs, env=env, capture_output=True, text=True, timeout=1500)
+                    except subprocess.TimeoutExpired:
+                        build = subprocess.CompletedProcess([], 124, "", "TIMEOUT building the playback test")
+                    if build.returncode == 0:
+                        break
                 if build.returncode != 0:
                     outcomes.append({"test": fn, "profile": prof, "outcome": "build-failed",
                                      "tail": (build.stdout + build.stderr)[-1500:]})
